@@ -24,6 +24,7 @@ structure RouteSt where
   tainted : Bool          -- an `unsupported` registration happened: the model no longer knows the table
   runeSens : Bool         -- some route's regex may behave differently on runes than on bytes
   names : Names := []     -- the name index (C15)
+  mwIds : List Nat := []  -- routes registered with a route middleware (it writes `M<id>;` before Next())
   routes : List RouteM := []   -- registered routes by id (for BuildURL)
 
 def RouteSt.init : RouteSt := { rt := RouterM.new {}, customNF := false, customNA := false, tainted := false, runeSens := false }
@@ -70,6 +71,9 @@ def insertKV (x : Bytes × Bytes) : List (Bytes × Bytes) → List (Bytes × Byt
 
 def sortKVs (l : List (Bytes × Bytes)) : List (Bytes × Bytes) := l.foldl (fun acc x => insertKV x acc) []
 
+def mwPrefix (st : RouteSt) (id : Nat) : Bytes :=
+  if st.mwIds.contains id then Bytes.ofString s!"M{id};" else []
+
 def tierOf (r : RouteM) : String :=
   if r.static then "S" else if r.info.first.isEmpty then "I" else "R"
 
@@ -93,6 +97,7 @@ def routeStep (st : RouteSt) : List String → RouteSt × String
     | some id, some ms, some path =>
       match register st.rt id [] ms path (nilh = "1") with
       | .ok rt' r =>
+        let st := if nilh = "3" || nilh = "4" then { st with mwIds := id :: st.mwIds } else st
         let internal :=
           if r.static then "S" else
           s!"{tierOf r} {Bytes.toHex r.info.start} {Bytes.toHex r.info.first} {Bytes.toHex r.info.regexStr} {hexList r.info.names}"
@@ -115,8 +120,8 @@ def routeStep (st : RouteSt) : List String → RouteSt × String
       let (res, rt') := quickMatch st.rt m p
       let st' := { st with rt := rt' }
       match res with
-      | .route r ps _ => (st', s!"200 - {Bytes.toHex (routeBody r.id ps)}")
-      | .fallback r => (st', s!"200 - {Bytes.toHex (routeBody r.id [])}")
+      | .route r ps _ => (st', s!"200 - {Bytes.toHex (mwPrefix st r.id ++ routeBody r.id ps)}")
+      | .fallback r => (st', s!"200 - {Bytes.toHex (mwPrefix st r.id ++ routeBody r.id [])}")
       | .allowed ms =>
         let sorted := sortBytes ms
         if st.customNA then
